@@ -1,4 +1,4 @@
-"""Demonstrations of the defects F01..F18 against the real code (dynamic, scratch only; not a check).
+"""Demonstrations of the defects F01..F20 against the real code (dynamic, scratch only; not a check).
 usage: /venv/bin/python findings/repro_all.py [/path/to/repo]   -> prints PASS/FAIL per finding."""
 import os, sys, tempfile, shutil, traceback
 sys.path.insert(0, os.path.dirname(__file__))
@@ -319,6 +319,20 @@ def _():
         assert m2.metadata.get('quality') == {0: 1}
         assert m2.metadata.get('info') == {0: 5, 1: 7}, m2.metadata.get('info')
         m2.close()
+    finally:
+        shutil.rmtree(d)
+
+@case('F20 export_waveforms: int16 samples x integer unit factor')
+def _():
+    from phylib.io.traces import export_waveforms, get_ephys_reader, extract_waveforms
+    d = tmp()
+    try:
+        arr = (np.arange(200 * 4).reshape(200, 4) * 40).astype(np.int16)
+        tr = get_ephys_reader(arr, sample_rate=1000.)
+        ss, sc = np.array([50, 150]), np.array([[0, 1], [2, 3]])
+        export_waveforms(d / 'w.npy', tr, ss, sc, n_samples_waveforms=6, sample2unit=3)
+        ref = np.stack([extract_waveforms(arr, [s_], c_, 6)[0] for s_, c_ in zip(ss, sc)]).astype(np.float64) * 3
+        assert np.array_equal(np.load(d / 'w.npy'), ref)
     finally:
         shutil.rmtree(d)
 
